@@ -64,6 +64,17 @@ def main(argv):
                 k_bad.append((src, cfg, detail))
     else:
         ck.broken.append("lean: the driver (model) does not build")
+    if k_bad and not failing:
+        # failing-input search: the programs on which model and code disagree, under all 8 configurations
+        for src, cfg, detail in k_bad[:80]:
+            for c8 in gen_prog.CONFIGS:
+                v, text = gen_prog.behaviour_check(ol, src, c8)
+                ck.count("search_runs")
+                if v.startswith("fail") and not inject.match_known(known, src, v, "C01"):
+                    failing.append(("k-disagreement", src, c8, v, text))
+                    break
+            if len(failing) >= 3:
+                break
     if k_bad:
         ck.broken.append(f"correspondence K(lowerFull = convert): {len(k_bad)} programs differ, first: {k_bad[0][2][:300]} on {k_bad[0][0][:300]!r}")
     for k in known:
